@@ -16,7 +16,7 @@ from typing import Any, Callable, Dict, List, Optional, Tuple
 from hypothesis import strategies as st
 from hypothesis.stateful import RuleBasedStateMachine, initialize, invariant, precondition, rule
 
-from .. import drive_api, gen, model
+from .. import cli_common, drive_api, e2e, filegen, gen, model
 from ..engine_common import engine_case, history_classes
 from ..runner import Outcome
 
@@ -34,6 +34,7 @@ ASSUMPTIONS = [
     "cut points lie between two distinct instants; histories of form (b) are date-monotone (R3)",
     "allow_negative_balances=True in (a) (single account; the matcher is what is observed)",
 ]
+RULE += e2e.RULE_SUFFIX
 
 FIELDS = ("ev", "lot", "amount", "proceeds", "basis", "gain", "long")
 CFG_B = gen.GenCfg(min_steps=4, max_steps=16, max_exchanges=2, max_holders=2)
@@ -41,8 +42,8 @@ CFG_B = gen.GenCfg(min_steps=4, max_steps=16, max_exchanges=2, max_holders=2)
 
 def budget(tier: str) -> Dict[str, Any]:
     if tier == "quick":
-        return {"shards": 16, "examples": 400, "machine_examples": 120, "machine_steps": 14}
-    return {"shards": 16, "examples": 6000, "machine_examples": 1800, "machine_steps": 14}
+        return {"shards": 16, "examples": 400, "machine_examples": 120, "machine_steps": 14, "examples2": 10}
+    return {"shards": 16, "examples": 6000, "machine_examples": 1800, "machine_steps": 14, "examples2": 120}
 
 
 # ----------------------------------------------------------------------------------------------- sheet-like numbering
@@ -359,6 +360,8 @@ COMPARE_LISTS = ("fractions", "taxable", "yearly", "balances", "ins", "outs", "i
 
 
 def evaluate(case: Dict[str, Any]) -> Outcome:
+    if case.get("e2e"):
+        return evaluate_e2e(case)
     if case.get("form") != "b":
         return replay_growth(case)
     out = Outcome()
@@ -399,6 +402,167 @@ def evaluate(case: Dict[str, Any]) -> Outcome:
             return out
     if full["ppu"] != trunc["ppu"]:
         out.fail("to_date_differs_from_truncation_average_price", f"average price {full['ppu']} vs {trunc['ppu']}")
+    return out
+
+
+# ----------------------------------------------------------------------------------------------- (c) end-to-end tier
+E2E_HIST = gen.GenCfg(min_steps=5, max_steps=14, max_exchanges=2, max_holders=2, long_gaps=True, tie_prob=0.2, subsecond_weight=4)
+E2E_REL = Fraction(1, 10**12)
+
+
+@st.composite
+def strategy2_case(draw: Any) -> Dict[str, Any]:
+    """Files through the console entry point: the whole input with -t T against the input truncated at T (rows dated after T
+    deleted from the spreadsheet, which also renumbers the rows below them) without -t."""
+    case = draw(e2e.file_strategy(E2E_HIST, countries=("us", "us", "us", "generic", "ie"), to_dates=True, schedule_weight=2, flavours=("mixed", "mixed", "mixed", "same_second_trades")))
+    if not case.get("to"):
+        filegen.stamp_rows(case)
+        txs = [t for rows in filegen.case_post_rows(case).values() for t in model.make_txs(rows)]
+        case["to"] = draw(gen.window_date(txs))
+    case["from"] = None
+    if draw(st.booleans()):
+        # the other form of the property: cut at an *instant* (rows later than it deleted from the spreadsheet, no -t at all)
+        filegen.stamp_rows(case)
+        instants = sorted({t.us for rows in filegen.case_post_rows(case).values() for t in model.make_txs(rows)})
+        if len(instants) >= 2:
+            case["cut_us"] = draw(st.sampled_from(instants[:-1]))
+            case["to"] = None
+    return case
+
+
+def strategy2(tier: str) -> Any:
+    return strategy2_case()
+
+
+def minimize(case: Dict[str, Any], clause: str) -> Dict[str, Any]:
+    return e2e.minimize(case, clause, evaluate) if case.get("e2e") else case
+
+
+def _by_uid(dump: Dict[str, Any], rows: List[Dict[str, Any]]) -> Dict[str, Any]:
+    ident = {t.row: (t.table, t.uid) for t in model.make_txs(rows)}
+    fractions = [(ident[f["ev"]], ident[f["lot"]] if f["lot"] is not None else None, f["amount"], f["proceeds"], f["basis"], f["gain"], f["long"]) for f in dump["fractions"]]
+    yearly = sorted((y["year"], y["type"], y["long"], y["crypto"], y["fiat"], y["basis"], y["gain"]) for y in dump["yearly"])
+    balances = sorted((b["ex"], b["ho"], b["acquired"], b["sent"], b["received"], b["final"]) for b in dump["balances"])
+    return {"fractions": fractions, "yearly": yearly, "balances": balances}
+
+
+def _close(a: Any, b: Any) -> bool:
+    if isinstance(a, Fraction) and isinstance(b, Fraction):
+        return abs(a - b) <= E2E_REL * max(abs(a), abs(b), Fraction(1, 10**9))
+    if isinstance(a, tuple) and isinstance(b, tuple):
+        return len(a) == len(b) and all(_close(x, y) for x, y in zip(a, b))
+    return a == b
+
+
+def evaluate_e2e(case: Dict[str, Any]) -> Outcome:
+    import copy
+
+    out = Outcome()
+    out.classes.add("e2e_cli")
+    out.classes.add(f"e2e_{case['country']}")
+    if case.get("cut_us") is not None:
+        return evaluate_e2e_instant_cut(case)
+    to_d = model.parse_date(case.get("to"))
+    if to_d is None:
+        out.skipped = "e2e_no_to_date"
+        return out
+    folder = cli_common.work_dir("c09e")
+    try:
+        res_full, dumps_full, rows_full = e2e.run(case, folder + "/full")
+        truncated = copy.deepcopy(case)
+        truncated["to"] = None
+        for asset in list(truncated["assets"]):
+            spec = truncated["assets"][asset]
+            spec["tables"] = [[table, [r for r in rows if model.make_tx(dict(r, row=1)).day <= to_d]] for table, rows in spec["tables"]]
+            if not any(table == "in" and rows for table, rows in spec["tables"]):
+                del truncated["assets"][asset]
+        if not truncated["assets"]:
+            out.skipped = "e2e_nothing_before_the_to_date"
+            return out
+        if any(any(model.make_tx(dict(r, row=1)).day > to_d for _, rows in spec["tables"] for r in rows) for spec in case["assets"].values()):
+            out.nontrivial = True
+            out.classes.add("e2e_to_date_cuts_history")
+        if case.get("asset_opt") and case["asset_opt"] not in truncated["assets"]:
+            out.skipped = "e2e_selected_asset_has_nothing_before_the_to_date"
+            return out
+        res_trunc, dumps_trunc, rows_trunc = e2e.run(truncated, folder + "/trunc")
+        if dumps_full is None or dumps_trunc is None:
+            if (dumps_full is None) != (dumps_trunc is None) and len(truncated["assets"]) == len(case["assets"]):
+                out.fail("to_date_vs_truncation_verdict", f"[end-to-end: rp2_{case['country']}] -t {case['to']} on the whole input exits {res_full.rc}, the input truncated at that date exits {res_trunc.rc}")
+            else:
+                out.skipped = "e2e_run_failed(C16)"
+            return out
+        for asset in sorted(dumps_trunc):
+            if asset not in dumps_full or not dumps_full[asset]["ok"] or not dumps_trunc[asset]["ok"]:
+                out.skipped = "e2e_report_not_relatable(C13)"
+                return out
+            if not model.is_date_monotone(model.make_txs(rows_full[asset])):
+                out.skipped = "non_monotone_dates(R3)"
+                return out
+            a = _by_uid(dumps_full[asset], rows_full[asset])
+            b = _by_uid(dumps_trunc[asset], rows_trunc[asset])
+            for name in ("fractions", "yearly", "balances"):
+                if len(a[name]) != len(b[name]) or not all(_close(x, y) for x, y in zip(a[name], b[name])):
+                    idx = next((i for i, (x, y) in enumerate(zip(a[name], b[name])) if not _close(x, y)), min(len(a[name]), len(b[name])))
+                    out.fail(
+                        f"to_date_differs_from_truncation_{name}",
+                        f"[end-to-end: rp2_{case['country']}, asset {asset}] {name}: with -t {case['to']} entry {idx} = {a[name][idx] if idx < len(a[name]) else None}; "
+                        f"on the spreadsheet truncated at that date = {b[name][idx] if idx < len(b[name]) else None} (lengths {len(a[name])} vs {len(b[name])})",
+                    )
+                    return out
+    finally:
+        cli_common.cleanup(folder)
+    return out
+
+
+def evaluate_e2e_instant_cut(case: Dict[str, Any]) -> Outcome:
+    """Whole spreadsheet vs the spreadsheet without the rows later than an instant T (between two distinct instants): every
+    fraction of an event at or before T must be the same - pairing, amounts, proceeds, basis, gain, LONG/SHORT."""
+    import copy
+
+    out = Outcome()
+    out.classes.add("e2e_cli")
+    out.classes.add("e2e_instant_cut")
+    cut = int(case["cut_us"])
+    folder = cli_common.work_dir("c09i")
+    try:
+        res_full, dumps_full, rows_full = e2e.run(case, folder + "/full")
+        prefix = copy.deepcopy(case)
+        for asset in list(prefix["assets"]):
+            spec = prefix["assets"][asset]
+            spec["tables"] = [[table, [r for r in rows if model.make_tx(dict(r, row=1)).us <= cut]] for table, rows in spec["tables"]]
+            if not any(table == "in" and rows for table, rows in spec["tables"]):
+                del prefix["assets"][asset]
+        if not prefix["assets"] or (case.get("asset_opt") and case["asset_opt"] not in prefix["assets"]):
+            out.skipped = "e2e_nothing_before_the_cut"
+            return out
+        res_pre, dumps_pre, rows_pre = e2e.run(prefix, folder + "/prefix")
+        if dumps_pre is None:
+            out.skipped = "e2e_run_failed(C16)"
+            return out
+        if dumps_full is None:
+            out.fail("later_rows_change_outcome", f"[end-to-end: rp2_{case['country']}] the spreadsheet cut at {model.fmt_ts(cut, 0)} runs, the whole spreadsheet exits {res_full.rc}: {cli_common.crash_bucket(res_full.text)}")
+            return out
+        for asset in sorted(dumps_pre):
+            if asset not in dumps_full or not dumps_full[asset]["ok"] or not dumps_pre[asset]["ok"]:
+                out.skipped = "e2e_report_not_relatable(C13)"
+                return out
+            txs_full = {t.row: t for t in model.make_txs(rows_full[asset])}
+            full_dump = dict(dumps_full[asset], fractions=[f for f in dumps_full[asset]["fractions"] if txs_full[f["ev"]].us <= cut])
+            a = _by_uid(full_dump, rows_full[asset])["fractions"]
+            b = _by_uid(dumps_pre[asset], rows_pre[asset])["fractions"]
+            if len(a) < len(dumps_full[asset]["fractions"]):
+                out.nontrivial = True
+            if len(a) != len(b) or not all(_close(x, y) for x, y in zip(a, b)):
+                idx = next((i for i, (x, y) in enumerate(zip(a, b)) if not _close(x, y)), min(len(a), len(b)))
+                out.fail(
+                    "earlier_fractions_changed",
+                    f"[end-to-end: rp2_{case['country']}, asset {asset}] fractions of the events up to {model.fmt_ts(cut, 0)}: entry {idx} is {a[idx] if idx < len(a) else None} on the whole "
+                    f"spreadsheet and {b[idx] if idx < len(b) else None} on the spreadsheet without the later rows (lengths {len(a)} vs {len(b)})",
+                )
+                return out
+    finally:
+        cli_common.cleanup(folder)
     return out
 
 
